@@ -35,9 +35,10 @@ class Check:
     bounds = {}
     explanation = ""
     rule = (
-        "one case = one (shape, path, claim) query discharged by z3 over all values of the symbolic "
-        "inputs; non-trivial = the negated claim was not syntactically false (a solver call was needed); "
-        "distinct = distinct (shape, decision prefix, claim name, occurrence)"
+        "one case = one (shape, path, claim) obligation discharged over all values of the symbolic inputs; "
+        "non-trivial = its path condition contains at least one solver-made decision on a symbolic input or the "
+        "claim itself needed a solver call (cases on input-independent paths whose claim simplifies to true are "
+        "trivial); distinct = distinct (shape, decision prefix, claim name, occurrence)"
     )
     max_paths = 20000
     lift = True
@@ -87,6 +88,7 @@ def _worker(args):
         out["incomplete"] = E.incomplete
         out["limits"] = E.limits[:20]
         out["n_limits"] = len(E.limits)
+        out["limit_models"] = E.limit_models
         out["claims"] = [
             {"name": c.name, "status": c.status, "t": round(c.time, 4), "model": c.model, "note": c.note, "prefix": core._dec_repr(c.key[0]) if c.key else ""}
             for c in E.claims
@@ -191,10 +193,12 @@ def main(argv=None):
         bad = [c for c in res["claims"] if c["status"] == "VIOLATED"]
         print(json.dumps({"claims": res["claims"], "error": res["error"]}))
         want = data.get("claim")
-        if res["error"]:
+        hit = any((want is None or c["name"] == want) for c in bad)
+        if res["error"] and not (hit and res["error"].startswith("abort:")):
+            # (an assumption that fails *after* the claim was evaluated is not retroactive: the violation stands)
             print("REPLAY-ERROR", res["error"], file=sys.stderr)
             return 2
-        if any((want is None or c["name"] == want) for c in bad):
+        if hit:
             print(f"REPRODUCED property={pid} claim={want} violated on the real code with inputs {data['inputs']}")
             return 1
         print("NOT-REPRODUCED")
@@ -238,7 +242,9 @@ def main(argv=None):
                 continue
             n_claims += 1
             status_count[c["status"]] = status_count.get(c["status"], 0) + 1
-            if c.get("note") != "trivial":
+            # non-trivial: the case depends on symbolic inputs - its path condition contains at least one
+            # solver-made decision, or the claim itself needed a solver call
+            if c.get("note") != "trivial" or c.get("prefix"):
                 n_nontrivial += 1
             if c["status"] == "sat":
                 sat_claims.append((r["shape"], c))
@@ -253,6 +259,12 @@ def main(argv=None):
     for (sh, name), sts in twins.items():
         if "reached" not in sts:
             errors.append(f"vacuous harness: {name} unreachable for shape {sh}")
+    if twins:
+        # a shape none of whose paths got as far as its reachability twin decided nothing (e.g. every path hit an engine limit)
+        with_twin = {sh for (sh, _n) in twins}
+        for r in results:
+            if not r["error"] and json.dumps(r["shape"], sort_keys=True) not in with_twin:
+                errors.append(f"vacuous harness: no path of shape {json.dumps(r['shape'])} reached its reachability twin ({r.get('n_limits', 0)} paths hit an engine limit: {r.get('limits', [])[:1]})")
 
     # replays: each distinct (claim signature) once; the model must reproduce on the real code
     violations, known_hits, nonrepro = [], [], []
@@ -289,7 +301,14 @@ def main(argv=None):
     for r in results:
         for model, obs in (r.get("obs") or [])[: (3 if tier == "quick" else 8)]:
             xitems.append({"shape": r["shape"], "inputs": model, "expect": _jsonable(obs)})
+    n_obs_items = len(xitems)
+    for r in results:
+        # concolic fall-back for paths the engine could not finish: the solver's input for the path prefix is run on
+        # the real code; a claim failing there is a reproduced violation (it never turns "inconclusive" into "holds")
+        for model, why in (r.get("limit_models") or [])[: (4 if tier == "quick" else 12)]:
+            xitems.append({"shape": r["shape"], "inputs": model, "fallback": why})
     validated = 0
+    fallback_runs = 0
     xmismatch = []
     sat_names = {(json.dumps(sh, sort_keys=True), c["name"]) for sh, c in sat_claims}
     if xitems:
@@ -312,6 +331,22 @@ def main(argv=None):
                 continue
             got_list, _ = json.JSONDecoder().raw_decode(so[at + len("XCHECK-JSON "):])
             for it, got in zip(ch, got_list):
+                if "fallback" in it:
+                    fallback_runs += 1
+                    for c in got["claims"]:
+                        if c["status"] != "VIOLATED":
+                            continue
+                        sig = (check.finding_signature(it["shape"], c["name"]),)
+                        if sig in seen_sig:
+                            continue
+                        seen_sig.add(sig)
+                        path = os.path.join(VERIF, "replays", f"{pid}_{tier}_{len(seen_sig) - 1}.json")
+                        json.dump({"property": pid, "shape": it["shape"], "inputs": it["inputs"], "claim": c["name"], "how": f"./run {pid} --replay {path}",
+                                   "note": "found by the concolic fall-back (path beyond the engine: " + it["fallback"] + ")"}, open(path, "w"), indent=1)
+                        rec = {"sig": sig, "claim": c["name"], "shape": it["shape"], "inputs": it["inputs"], "replay": path}
+                        kf = next((k for k in known_here if k["signature"] == sig[0]), None)
+                        (known_hits.append((kf, rec)) if kf else violations.append(rec))
+                    continue
                 if got["error"]:
                     xmismatch.append({"inputs": it["inputs"], "shape": it["shape"], "error": got["error"][-400:]})
                 elif got["obs"] != it["expect"]:
@@ -359,6 +394,7 @@ def main(argv=None):
             "rule": check.rule,
             "samples": samples or [{"note": "no sample recorded"}],
             "traces_validated_against_impl": validated,
+            "concolic_fallback_runs": fallback_runs,
             "exhaustive": False,
             "technique": "bounded symbolic execution of the real functions (proxy engine + z3), claims discharged as unsat queries",
             "functions_encoded": source_hashes(check.functions),
@@ -387,10 +423,15 @@ def main(argv=None):
         # transitions = distinct (state, operation) pairs executed
         ev["coverage"]["states"] = sum(r.get("mc_states", 0) for r in results) + sum(r.get("ok_paths", 0) for r in results)
         ev["coverage"]["transitions"] = sum(r.get("mc_transitions", 0) for r in results)
-    json.dump(ev, open(os.path.join(VERIF, "evidence", f"{pid}.json"), "w"), indent=1)
+    ev_dir = os.path.join(VERIF, "evidence")
+    if os.path.realpath(os.environ.get("TERM_IMAGE_REPO", "/repo")) != "/repo":
+        # runs against a scratch copy (seeded changes, mutants) must not overwrite the evidence of /repo
+        ev_dir = os.path.join(VERIF, "evidence", ".scratch")
+        os.makedirs(ev_dir, exist_ok=True)
+    json.dump(ev, open(os.path.join(ev_dir, f"{pid}.json"), "w"), indent=1)
 
     print(f"{pid} [{tier}] shapes={len(shapes)} paths={ev['coverage']['paths_explored']} queries={n_claims} {status_count} "
-          f"inconclusive={len(inconclusive)} xcheck={validated}/{len(xitems)} solver={ev['coverage']['solver_s']}s wall={wall:.1f}s")
+          f"inconclusive={len(inconclusive)} xcheck={validated}/{n_obs_items} fallback={fallback_runs} solver={ev['coverage']['solver_s']}s wall={wall:.1f}s")
     if a.v:
         for i in inconclusive[:20]:
             print("  inconclusive:", json.dumps(i)[:400])
